@@ -54,7 +54,7 @@ func describe(u upstream.Upstream, ok bool) string {
 // c15Sequential: reference = ordered member list per endpoint.
 func c15Sequential(r *rand.Rand, nops int, sh *core.Shard) (ops []c15op, sig, what string) {
 	rg := newRig()
-	eps := []string{"e1", "e10", "e1-x"}
+	eps := []string{"e1", "e10", "e1-x", "E1"}
 	// a remote node advertises some endpoints (used by selectRemote)
 	remoteEps := map[string]int{}
 	for _, e := range eps {
